@@ -192,6 +192,13 @@ def run(ctx: Ctx):
         pre = [n for n, _ in pat.find(f.node, f"{cname} = False") if not any(n is x for x in ast.walk(lp))]
         ctx.check(bool(pre), "CONV-1", f, pre[0] if pre else f.node, "converged starts as False", "", "converged is not initialised to False")
         ctx.check(any(isinstance(b, ast.Break) for b in ast.walk(lp)), "CONV-1", f, lp, "iteration stops at convergence", "", "the loop does not stop when the policy is stable")
+        # (written after seed C19-c) the flag has no other writer: False before the loop, True under the stability test inside it
+        others = [n for n in ast.walk(f.node) if isinstance(n, (ast.Assign, ast.AugAssign, ast.AnnAssign))
+                  and any(isinstance(t_, ast.Name) and t_.id == cname for t_ in (n.targets if isinstance(n, ast.Assign) else [n.target]))
+                  and n is not cst and not any(n is x for x in pre)]
+        ctx.check(not others, "CONV-1", f, others[0] if others else cst, "the converged flag is written only at initialisation and under the stability test", "",
+                  f"`{norm(others[0], 70) if others else ''}` also writes the converged flag: after the loop the policy has already been advanced to the improved one, "
+                  "so a comparison made there is not the stability test of the last iteration")
     else:
         ctx.violation("CONV-1", f, lp, "converged flag", "no flag is set to True inside the loop")
     rets = [n for n in fn_body_nodes(f) if isinstance(n, ast.Return) and isinstance(n.value, ast.Call)]
